@@ -145,6 +145,9 @@ def finish(ctx: Ctx, explanation: str, assumptions: list[str], trusted: list[str
         print(f"KNOWN-FINDING: property={f.prop} {f.fkey} at {f.loc}: {f.msg}")
 
     replay_paths = []
+    global REPLAY_DIR
+    if os.environ.get("SA_NO_EVIDENCE"):
+        REPLAY_DIR = os.path.join("/tmp", "sa_replays_scratch")
     if unlisted:
         os.makedirs(REPLAY_DIR, exist_ok=True)
     for i, f in enumerate(unlisted):
@@ -219,10 +222,11 @@ def finish(ctx: Ctx, explanation: str, assumptions: list[str], trusted: list[str
     }
     if error:
         ev["coverage"]["analysis_error"] = error
-    os.makedirs(EVIDENCE_DIR, exist_ok=True)
-    with open(os.path.join(EVIDENCE_DIR, f"{ctx.prop}.json"), "w", encoding="utf-8") as fh:
-        json.dump(ev, fh, indent=1, sort_keys=False)
-        fh.write("\n")
+    if not os.environ.get("SA_NO_EVIDENCE"):
+        os.makedirs(EVIDENCE_DIR, exist_ok=True)
+        with open(os.path.join(EVIDENCE_DIR, f"{ctx.prop}.json"), "w", encoding="utf-8") as fh:
+            json.dump(ev, fh, indent=1, sort_keys=False)
+            fh.write("\n")
 
     if error:
         print(f"ANALYSIS-ERROR property={ctx.prop} {error}")
